@@ -492,6 +492,71 @@ theorem points_of_lossless_store (store : Store) (hl : Lossless store) (s : Time
     seriesPoints store s = s.pts.map (fun (t, v) => ⟨msToSeconds t, v⟩) := by
   unfold seriesPoints; rw [hl s.pts hd]
 
+/-- the rows the property asks for: every point of every series, x in seconds, NaN-padded -/
+def expectedRows (n : Nat) : Nat → List TimeSeries → List (List F64)
+  | _, [] => []
+  | i, s :: rest =>
+    s.pts.map (fun (tv : Nat × F64) => mkRow n i ⟨msToSeconds tv.1, tv.2⟩) ++ expectedRows n (i+1) rest
+
+theorem aux_seriesRows_zero (store : Store) (hl : Lossless store) (n : Nat) :
+    ∀ (ss : List TimeSeries) (i : Nat), (∀ s ∈ ss, tszDomain (s.pts.map (·.1)) = true) →
+      seriesRows store 0 n i ss = expectedRows n i ss := by
+  intro ss
+  induction ss with
+  | nil => intro i _; rfl
+  | cons s rest ih =>
+    intro i hd
+    unfold seriesRows expectedRows
+    rw [ih (i+1) (fun s' hs' => hd s' (List.mem_cons_of_mem _ hs'))]
+    have hp := points_of_lossless_store store hl s (hd s (by simp))
+    have hlen : ((seriesPoints store s).length : Int) = (s.pts.length : Int) := by rw [hp]; simp
+    rw [downsample_identity _ 0 _ hlen (Or.inr rfl), hp]
+    simp only [List.map_map]
+    rfl
+
+/--
+**First sentence of the property, end to end** (threshold 0, i.e. no down-sampling; store inside
+its documented limits): for results presented in any arrival order, `Plot.data` succeeds, its
+rows are sorted by x and are — up to the order of rows with equal x — exactly one row per result
+`[seconds since the attack's first request at ms resolution, NaN, …, latency in ms, …, NaN]`,
+the value standing in the column of the result's per-attack OK/ERROR series, the series being
+exactly the (attack, label) pairs that occur, in `attack+label` order.
+-/
+theorem plot_shows_every_result_once (canon : Bytes → List Result) (rs : List Result)
+    (hc : ∀ a, Canon a (canon a))
+    (hperm : ∀ a, (rs.filter (fun r => r.attack == a)).Perm (canon a))
+    (store : Store) (hl : Lossless store)
+    (hdom : ∀ a l, tszDomain ((specPts (t0 (canon a)) (canon a) l).map (·.1)) = true) :
+    ∃ p rows labels, Plot.addAll [] rs = .ok p ∧ Plot.data store p 0 = .ok (rows, labels) ∧
+      rows.Pairwise (fun a b => rowLt b a = false) ∧
+      rows.Perm (expectedRows (allSeries p).length 0 (allSeries p)) ∧
+      labels = dataLabels (allSeries p) ∧
+      (∀ s, s ∈ allSeries p ↔
+        ∃ a l, (∃ r ∈ canon a, r.label = l) ∧ s = specSeries a (t0 (canon a)) (canon a) l) := by
+  obtain ⟨p, hp, hser⟩ := arrival_order_irrelevant canon rs hc hperm
+  obtain ⟨rows, labels, hdata⟩ := data_threshold_zero_ok store p
+  obtain ⟨hmem, _⟩ := series_shown_are_the_label_series rs p hp
+  have hiff : ∀ s, s ∈ allSeries p ↔
+      ∃ a l, (∃ r ∈ canon a, r.label = l) ∧ s = specSeries a (t0 (canon a)) (canon a) l := by
+    intro s
+    rw [hmem s]
+    constructor
+    · rintro ⟨a, l, h⟩
+      rw [hser a l] at h
+      by_cases hex : ∃ r ∈ canon a, r.label = l
+      · rw [if_pos hex] at h; cases h; exact ⟨a, l, hex, rfl⟩
+      · rw [if_neg hex] at h; cases h
+    · rintro ⟨a, l, hex, hs⟩
+      exact ⟨a, l, by rw [hser a l, if_pos hex, hs]⟩
+  obtain ⟨hperm', hlabels⟩ := rows_are_the_series_points store p 0 rows labels hdata
+  refine ⟨p, rows, labels, hp, hdata, rows_sorted_by_x store p 0 rows labels hdata, ?_, hlabels, hiff⟩
+  rw [← aux_seriesRows_zero store hl _ _ 0 ?_]
+  · exact hperm'
+  · intro s hs
+    obtain ⟨a, l, _, hs'⟩ := (hiff s).mp hs
+    rw [hs']
+    exact hdom a l
+
 example : Lossless (id : Store) := fun _ _ => rfl
 example : tszDomain [0, 0, 5, 10, 4000000] = true := by decide
 /-- where the assumption stops: a series whose first point lies 38 h after the attack's first
@@ -568,6 +633,34 @@ example : (∀ a, Canon a (exCanon a)) ∧
           simp only [exArrival, List.mem_cons, List.not_mem_nil, or_false] at hx
           rcases hx with hx | hx | hx | hx | hx <;> subst hx <;> simp <;> first | exact fun e => h1 e.symm | exact fun e => h2 e.symm
         rw [this]
+
+/-- … and so does the store-limit hypothesis of `plot_shows_every_result_once` -/
+example : ∀ a l, tszDomain ((specPts (t0 (exCanon a)) (exCanon a) l).map (·.1)) = true := by
+  intro a l
+  by_cases h1 : l = labelOK
+  · subst h1
+    unfold exCanon
+    split
+    · decide +kernel
+    · split
+      · decide +kernel
+      · decide
+  · by_cases h2 : l = labelERROR
+    · subst h2
+      unfold exCanon
+      split
+      · decide +kernel
+      · split
+        · decide +kernel
+        · decide
+    · have e1 : (labelOK == l) = false := by simp; exact fun e => h1 e.symm
+      have e2 : (labelERROR == l) = false := by simp; exact fun e => h2 e.symm
+      unfold exCanon
+      split
+      · simp [specPts, e1, e2, tszDomain]
+      · split
+        · simp [specPts, e1, tszDomain]
+        · simp [specPts, tszDomain]
 
 example : (Plot.addAll [] exArrival).isOk = true := by decide +kernel
 example : (match Plot.addAll [] exArrival with
